@@ -476,6 +476,37 @@ Proof.
     eapply (collision_from_64 Hout br1 br2 0 p1 p2 leaf1 leaf2 x y); eassumption.
 Qed.
 
+(* ---------- SPV soundness against the block's own tree ----------
+   a proof that folds to the root of the tree built from leaf list l, presented with a position whose
+   low bits name index j of the block and with the branch length of that tree, carries exactly the
+   j-th leaf and the genuine branch -- or [collision] returns an explicit collision *)
+Theorem verified_member l br pos leaf r j :
+  merkle_root l = Some r -> (j < length l)%nat ->
+  (pos mod 2 ^ Z.of_nat (length br) = Z.of_nat j)%Z ->
+  same_widths br (branch l j) ->
+  fold_branch br pos leaf = r ->
+  (leaf = nth j l [] /\ br = branch l j) \/
+  exists x y, collision br (branch l j) pos (Z.of_nat j) leaf (nth j l []) = Some (x, y) /\ x <> y /\ dsha x = dsha y.
+Proof.
+  intros Hr Hj Hp Hw Hf.
+  destruct (genuine l j Hj) as [r' [Hr' Hg]]. rewrite Hr in Hr'. inversion Hr'; subst r'.
+  destruct (list_eq_dec bytes_eq_dec br (branch l j)) as [Eb|Eb];
+    [destruct (bytes_eq_dec leaf (nth j l [])) as [El|El]|].
+  - left. split; assumption.
+  - right. apply binding; try assumption.
+    + rewrite Hp. pose proof (same_widths_length _ _ Hw) as HL. rewrite HL.
+      symmetry. apply Z.mod_small. split; [lia|].
+      pose proof (branch_length_covers l j ltac:(lia)). rewrite <- (Nat2Z.inj_pow 2). lia.
+    + intro E. inversion E. contradiction.
+    + congruence.
+  - right. apply binding; try assumption.
+    + rewrite Hp. pose proof (same_widths_length _ _ Hw) as HL. rewrite HL.
+      symmetry. apply Z.mod_small. split; [lia|].
+      pose proof (branch_length_covers l j ltac:(lia)). rewrite <- (Nat2Z.inj_pow 2). lia.
+    + intro E. inversion E. contradiction.
+    + congruence.
+Qed.
+
 (* ---------- mutation of the transaction ---------- *)
 Theorem tx_mutation br pos raw1 raw2 :
   raw1 <> raw2 ->
